@@ -34,3 +34,7 @@ claim("C16",
  "The packet label codec is proved for every label of 1..255 bytes and every payload: AddLabelHeaderToPacket produces 244, the length byte, the label bytes and the payload; RemoveLabelHeaderFromPacket returns exactly the label and the remaining bytes, passes unlabelled packets through and never panics; the round trip Remove(Add(buf, L)) = (buf, L) is a lemma over the two contracts. Isolation: ingestPacket and handleConn reach decryption / command dispatch / stream reading only when the received label equals the configured one (or, with SkipInboundLabelCheck, only when no header is present). Stream side: RemoveLabelHeaderFromStream returns an error only if the stream does (or the header is empty) however the bytes are fragmented, and the label it returns is the one in the header.",
  BASE + "bufio.Reader.Peek(n) blocks until n bytes or an error and every Peek is a view of the same unread prefix (this is what makes fragmentation irrelevant); string/byte-slice contents are axiomatised elementwise with an extensionality axiom for strings.",
  "DESIGN.md §5 C16")
+claim("C06",
+ "remainingSuspicionTime is proved (floats as reals, log monotone) to keep the total timeout within [min,max] for every 0<=n<=k, to equal min at n=k and to be within one millisecond of max at n=0; Confirm is proved to count a confirmation iff fewer than k were seen and the sender is new (the accuser is pre-registered by newSuspicion), to re-arm the timer only with remaining>0 and elapsed+remaining in [min,max], and to fire immediately only once elapsed>=min; newSuspicion arms the timer with min when k<1 and max otherwise; suspectNode passes k, min, max and the accuser as the statement prescribes; the timer callback declares the node dead only if, under the lock, it is still suspect with the StateChange of this very suspicion, with the incarnation read under the lock; every registered suspicion satisfies the representation invariant (N5c).",
+ BASE + "IEEE rounding ignored (floats as reals; math.Log uninterpreted, monotone, 0 at 1); time.AfterFunc/Stop/Reset are external (their firing time is not modelled: 'keeps listing it for at least min' is decided as 'never re-armed or fired below min'); configuration validity (SuspicionMaxTimeoutMult>=1, ProbeInterval>=0) assumed; monotonicity of the schedule in n is not stated as a two-run lemma.",
+ "DESIGN.md §5 C06")
